@@ -434,6 +434,51 @@ func (p *Prog) ConstCompareSet(info *types.Info, n ast.Node) []string {
 							walk(p.DeclPkg[f].TypesInfo, ret.Results[0], depth+1)
 						}
 					}
+					// a predicate spelled as a switch: `switch v { case A, B: return true; default: return false }`
+					if d := p.Decls[f]; d != nil && d.Body != nil && len(d.Body.List) >= 1 {
+						if sw, ok := d.Body.List[0].(*ast.SwitchStmt); ok && sw.Tag != nil && sw.Init == nil {
+							finfo := p.DeclPkg[f].TypesInfo
+							isBool := func(st []ast.Stmt, want bool) bool {
+								if len(st) != 1 {
+									return false
+								}
+								ret, ok := st[0].(*ast.ReturnStmt)
+								if !ok || len(ret.Results) != 1 {
+									return false
+								}
+								tv, ok := finfo.Types[ret.Results[0]]
+								return ok && tv.Value != nil && tv.Value.Kind() == constant.Bool && constant.BoolVal(tv.Value) == want
+							}
+							okShape := true
+							var labels []string
+							for _, cs := range sw.Body.List {
+								cc := cs.(*ast.CaseClause)
+								switch {
+								case isBool(cc.Body, true) && cc.List != nil:
+									for _, e := range cc.List {
+										if tv, ok := finfo.Types[e]; ok && tv.Value != nil && tv.Value.Kind() == constant.String {
+											labels = append(labels, strings.ToUpper(constant.StringVal(tv.Value)))
+										} else {
+											okShape = false
+										}
+									}
+								case isBool(cc.Body, false):
+								default:
+									okShape = false
+								}
+							}
+							if len(d.Body.List) == 2 && !isBool(d.Body.List[1:], false) || len(d.Body.List) > 2 {
+								okShape = false
+							}
+							if okShape {
+								for _, l := range labels {
+									if l != "" {
+										set[l] = true
+									}
+								}
+							}
+						}
+					}
 				}
 			}
 			return true
